@@ -567,6 +567,9 @@ class LearnerND(BaseLearner):
 
     def tell_pending(self, point, *, simplex=None):
         point = tuple(point)
+        if point in self.data:
+            # The point has already been evaluated.
+            return
         if not self.inside_bounds(point):
             return
 
